@@ -768,7 +768,7 @@ open Flows FlowsPf
 theorem scan_eq_chain_of_unstacked {X C κ : Type} (makeLayer : κ → Bij X C ℝ) (key : ℕ → κ) (n : ℕ) :
     Flows.scanOf (Flows.filterVmap makeLayer (Flows.jrSplitN key n))
       = (Chain.mk ((List.range n).map fun i => makeLayer (key i))).toBij := by
-  rw [FlowsPf.layers_eq_map]; rfl
+  rw [FlowsPf.layers_eq_map, FlowsPf.scanOf_eq_chain]
 
 /-- … instantiated at the generated coupling / MAF / planar / BNAF factories, `invert = false`; `invert = true` wraps the
 same chain in the generated `Invert` -/
@@ -777,7 +777,7 @@ theorem coupling_flow_eq_chain (tf : List ℝ → Bij ℝ Unit ℝ) (dim : ℕ) 
         = (Chain.mk ((List.range n).map fun i => coupling_flow.make_layer tf dim (key i))).toBij ∧
     couplingFlowBij tf dim key n true
         = (Invert.mk (Chain.mk ((List.range n).map fun i => coupling_flow.make_layer tf dim (key i))).toBij).toBij := by
-  rw [FlowsPf.couplingFlowBij_eq, FlowsPf.couplingFlowBij_eq, FlowsPf.layers_eq_map]
+  rw [FlowsPf.couplingFlowBij_eq, FlowsPf.couplingFlowBij_eq, FlowsPf.layers_eq_map, FlowsPf.scanOf_eq_chain]
   exact ⟨rfl, rfl⟩
 
 theorem maf_flow_eq_chain (tf : List ℝ → Bij ℝ Unit ℝ) (dim : ℕ) (key : ℕ → Masks.MafNet ℝ × List ℕ) (n : ℕ) :
@@ -785,7 +785,7 @@ theorem maf_flow_eq_chain (tf : List ℝ → Bij ℝ Unit ℝ) (dim : ℕ) (key 
         = (Chain.mk ((List.range n).map fun i => masked_autoregressive_flow.make_layer tf dim (key i))).toBij ∧
     mafFlowBij tf dim key n true
         = (Invert.mk (Chain.mk ((List.range n).map fun i => masked_autoregressive_flow.make_layer tf dim (key i))).toBij).toBij := by
-  rw [FlowsPf.mafFlowBij_eq, FlowsPf.mafFlowBij_eq, FlowsPf.layers_eq_map]
+  rw [FlowsPf.mafFlowBij_eq, FlowsPf.mafFlowBij_eq, FlowsPf.layers_eq_map, FlowsPf.scanOf_eq_chain]
   exact ⟨rfl, rfl⟩
 
 theorem planar_flow_eq_chain (dim : ℕ) (s : ℝ) (key : ℕ → (List ℝ → List ℝ) × List ℕ) (n : ℕ) :
@@ -793,7 +793,7 @@ theorem planar_flow_eq_chain (dim : ℕ) (s : ℝ) (key : ℕ → (List ℝ → 
         = (Chain.mk ((List.range n).map fun i => planar_flow.make_layer dim s (key i))).toBij ∧
     planarFlowBij dim s key n true
         = (Invert.mk (Chain.mk ((List.range n).map fun i => planar_flow.make_layer dim s (key i))).toBij).toBij := by
-  rw [FlowsPf.planarFlowBij_eq, FlowsPf.planarFlowBij_eq, FlowsPf.layers_eq_map]
+  rw [FlowsPf.planarFlowBij_eq, FlowsPf.planarFlowBij_eq, FlowsPf.layers_eq_map, FlowsPf.scanOf_eq_chain]
   exact ⟨rfl, rfl⟩
 
 /-- each layer is `Chain([bijection, permutation]).merge_chains()`; the chain of such layers has the same four methods
@@ -849,13 +849,13 @@ theorem gen_scan_eq_chain {X C α : Type} [Add α] [Neg α] [OfNat α 0] (s : Ja
   ⟨JaxTrProofs.scan_transform_eq s, JaxTrProofs.scan_inverse_eq s, JaxTrProofs.scan_tld_eq s, JaxTrProofs.scan_ild_eq s,
    JaxTrProofs.scan_toBij_eq_chain s⟩
 
-/-- the HAND models of `Scan` used elsewhere (`ArrComb.scan` of `Model/ArrExt.lean`, `Flows.scanOf` of `Model/FlowsPre.lean`,
-both defined as the generated `Chain` of the unstacked layers: `scan_eq_chain`, `scan_eq_chain_of_unstacked`) are the GENERATED
-`Scan` of the stacked layers — so every theorem about them is a theorem about the regenerated code. -/
+/-- the `Scan` the generated premade-flow factories call (`Flows.scanOf` of `Model/FlowsPre.lean`) IS the GENERATED `Scan` of the
+stacked layers (by definition, since this round: every flow theorem of C01 / C03 / C08 and the `flow` correspondences now go
+through the regenerated methods), and the HAND model `ArrComb.scan` of `Model/ArrExt.lean` (defined as the generated `Chain` of
+the unstacked layers: `scan_eq_chain`) equals it. -/
 theorem gen_scan_eq_hand {X C κ : Type} (layers : List (Bij X C ℝ)) (alayers : List (Bij (Arr κ) C ℝ)) :
     Flows.scanOf layers = (JaxTr.scanOfLayers layers).toBij ∧ ArrComb.scan alayers = (JaxTr.scanOfLayers alayers).toBij :=
-  ⟨(JaxTrProofs.scan_toBij_eq_chain (JaxTr.scanOfLayers layers)).symm,
-   (JaxTrProofs.scan_toBij_eq_chain (JaxTr.scanOfLayers alayers)).symm⟩
+  ⟨rfl, (JaxTrProofs.scan_toBij_eq_chain (JaxTr.scanOfLayers alayers)).symm⟩
 
 /-- the premade-flow statement on the regenerated `Scan`: `Scan(filter_vmap(make_layer)(split(key, n)))` with the generated
 `Scan` methods is the generated `Chain` of `[make_layer(key 0), …, make_layer(key (n−1))]` -/
